@@ -19,7 +19,7 @@ LEAVES = [("int", -1), ("int", 0), ("int", 1), ("int", 2), ("none", 0), ("true",
 # closure shadows the globals (Python's rule; the re-evaluator must look names up in the same order).
 C_VALUE = ("int", 5, [])
 G_VALUE = ("list", 0, [7])
-UNARY = ["not", "neg", "ident", "len", "first", "attr", "isnone", "all_gt", "all_pos"]
+UNARY = ["not", "neg", "ident", "len", "first", "attr", "isnone", "all_gt", "all_pos", "sum_star", "comp"]
 NONE_ELEM = -9   # a list element that is None
 BINARY = ["add", "floordiv", "and", "or", "lt", "eq", "in"]
 TERNARY = ["ifexp", "lt2", "and3", "or3"]
@@ -125,7 +125,7 @@ def parse(expr: list, p: int = 0) -> Tuple[dict, int]:
     return node, q
 
 
-ATOMIC = ("int", "none", "true", "false", "name", "ident", "len", "first", "attr", "all_gt", "all_pos")
+ATOMIC = ("int", "none", "true", "false", "name", "ident", "len", "first", "attr", "all_gt", "all_pos", "sum_star", "comp")
 
 
 def render(node: dict, rec: bool = False) -> str:
@@ -165,6 +165,14 @@ def render(node: dict, rec: bool = False) -> str:
         s = "all(e > 0 for e in " + sub(0) + ")"
     elif k == "all_pos":
         s = "all(10 // e > 0 for e in " + sub(0) + " if e is not None if e > 0)"
+    elif k == "sum_star":
+        s = "total(*" + sub(0) + ")"            # a starred argument
+    elif k == "comp":
+        if rec:
+            # (a recorder lambda inside the iterable would capture the comprehension's own x under PEP 709)
+            s = "(lambda _it: [x for x in _it])(" + sub(0) + ")"
+        else:
+            s = "[x for x in " + sub(0) + "]"   # the loop variable shadows the argument x
     elif k == "first":
         s = sub(0) + "[0]"
     elif k == "attr":
@@ -194,11 +202,14 @@ def texts(node: dict, out: Dict[int, str]) -> None:
         texts(kid, out)
 
 
-def expr_cfg(sw_eager: bool, sw_or: bool, invariants: List[str], sw_allfail: bool = False) -> str:
+def expr_cfg(sw_eager: bool, sw_or: bool, invariants: List[str], sw_allfail: bool = False, sw_nostar: bool = False,
+             sw_compleak: bool = False) -> str:
     lines = ["SPECIFICATION ESpec", "CONSTANTS", "  CaseSpace <- MCCaseSpace",
              "  SwEagerBool = {}".format("TRUE" if sw_eager else "FALSE"),
              "  SwOrSeedTrue = {}".format("TRUE" if sw_or else "FALSE"),
-             "  SwAllFailLeaks = {}".format("TRUE" if sw_allfail else "FALSE")]
+             "  SwAllFailLeaks = {}".format("TRUE" if sw_allfail else "FALSE"),
+             "  SwNoStarred = {}".format("TRUE" if sw_nostar else "FALSE"),
+             "  SwCompTargetLeaks = {}".format("TRUE" if sw_compleak else "FALSE")]
     for inv in invariants:
         lines.append("INVARIANT " + inv)
     lines.append("CHECK_DEADLOCK FALSE")
@@ -209,7 +220,8 @@ EXPR_INVARIANTS = ["RecomputeWithinEvaluated", "ViolationSurfaces", "ShownSound"
 
 
 def model_check_expr(cases: List[dict], sw_eager: bool = False, sw_or: bool = False,
-                     invariants: Optional[List[str]] = None, emit: bool = True) -> Tuple[tlc.TlcResult, Dict[int, dict], Dict[int, dict]]:
+                     invariants: Optional[List[str]] = None, emit: bool = True, sw_allfail: bool = False,
+                     sw_nostar: bool = False, sw_compleak: bool = False) -> Tuple[tlc.TlcResult, Dict[int, dict], Dict[int, dict]]:
     wd = tlc.scratch_dir("icv-expr-")
     try:
         cfile = os.path.join(wd, "cases.ndjson")
@@ -219,7 +231,7 @@ def model_check_expr(cases: List[dict], sw_eager: bool = False, sw_or: bool = Fa
         invs = list(EXPR_INVARIANTS if invariants is None else invariants)
         if emit:
             invs += ["PrintCase", "PrintPy"]
-        res = tlc.run_tlc("MC_Expr", expr_cfg(sw_eager, sw_or, invs), wd, workers=16, env={"CASES": cfile})
+        res = tlc.run_tlc("MC_Expr", expr_cfg(sw_eager, sw_or, invs, sw_allfail, sw_nostar, sw_compleak), wd, workers=16, env={"CASES": cfile})
         viol, py = {}, {}
         for pr in res.prints:
             if isinstance(pr, dict) and "cid" in pr:
@@ -248,6 +260,10 @@ def make_cases(exprs: List[list], rng: random.Random, envs_per_expr: int = 0) ->
 
 
 _SERIAL = itertools.count(1)
+
+
+def _total(*values: Any) -> Any:
+    return sum(values)
 
 
 class ExprModule:
@@ -286,7 +302,7 @@ class ExprModule:
         src = "\n".join(lines) + "\n"
         self.source = src
         linecache.cache[self.filename] = (len(src), None, src.splitlines(True), self.filename)
-        ns = {"ident": self._ident, "R": self._rec, "__name__": "icv_expr"}
+        ns = {"ident": self._ident, "R": self._rec, "total": _total, "__name__": "icv_expr"}
         import warnings
         with warnings.catch_warnings():
             warnings.simplefilter("ignore")
@@ -662,7 +678,7 @@ class LayoutModule:
         my_repr = reprlib.Repr()
         my_repr.maxlist = 50
         self.MyError = MyError
-        self.ns = {"ident": self._ident, "foreign": foreign, "run": run, "MyError": MyError, "MY_REPR": my_repr,
+        self.ns = {"ident": self._ident, "total": _total, "foreign": foreign, "run": run, "MyError": MyError, "MY_REPR": my_repr,
                    "__name__": "icv_layout", "definitely": "a description", "classy_error": MyError,
                    "default_of": (lambda v: v), "c": 5, "g": [7]}
         import warnings
